@@ -557,6 +557,8 @@ func runC14(rc *RunCtx) {
 		s.SetFaults(25, 2, FaultErrNA)
 	}
 	s.TickPerStep = time.Millisecond
+	s.SwarmFreeze()
+	rc.Cfg("sched", fmt.Sprintf("stall=%d yield_on_release=%v", s.FreezePermille, s.YieldOnRelease))
 	s.SetControlled()
 	for c := range scripts {
 		c := c
